@@ -40,7 +40,8 @@ func ReadReasonMap(source io.Reader) ([]*FailureReason, error) {
 	} else if length < 0 {
 		return nil, fmt.Errorf("invalid reason map length: %d", length)
 	} else {
-		reasonMap := make([]*FailureReason, length)
+		// the length comes from the wire: do not allocate for more elements than a sane message holds up front
+		reasonMap := make([]*FailureReason, 0, BoundedCapacity(length))
 		for i := 0; i < int(length); i++ {
 			if addr, err := ReadInetAddr(source); err != nil {
 				return nil, fmt.Errorf("cannot read reason map key for element %d: %w", i, err)
@@ -49,7 +50,7 @@ func ReadReasonMap(source io.Reader) ([]*FailureReason, error) {
 			} else if err := CheckValidFailureCode(FailureCode(code)); err != nil {
 				return nil, err
 			} else {
-				reasonMap[i] = &FailureReason{addr, FailureCode(code)}
+				reasonMap = append(reasonMap, &FailureReason{addr, FailureCode(code)})
 			}
 		}
 		return reasonMap, err
